@@ -327,3 +327,192 @@ def blob_facts(blob):
     else:
         facts['bits'] = plain_bits(r, t)
     return facts
+
+
+# ---------------------------------------------------------------------------------------- field maps (for fault placement)
+def _walk_plain_key(d, p, kt, out, pre):
+    def s(name):
+        nonlocal p
+        if p + 4 > len(d):
+            return False
+        n = struct.unpack('>I', d[p:p + 4])[0]
+        out.append((p, 4, pre + name, n))
+        p += 4 + n
+        return True
+    if kt in ('ssh-rsa',):
+        s('e.len') and s('n.len')
+    elif kt in ('ssh-ed25519', 'ssh-ed448'):
+        s('pk.len')
+    elif kt.startswith('ecdsa-sha2-'):
+        s('curve.len') and s('Q.len')
+    elif kt == 'ssh-dss':
+        s('p.len') and s('q.len') and s('g.len') and s('y.len')
+    return p
+
+
+def _walk_key_blob(d, base, out, pre='K_S.'):
+    """Length fields inside a host-key blob that starts at absolute offset `base` of the message (d is the message)."""
+    p = base
+    if p + 4 > len(d):
+        return
+    n = struct.unpack('>I', d[p:p + 4])[0]
+    out.append((p, 4, pre + 'type.len', n))
+    kt = d[p + 4:p + 4 + n].decode('ascii', 'replace')
+    p += 4 + n
+    if '-cert-v0' in kt:
+        basek = kt.split('-cert-v0')[0]
+        if p + 4 <= len(d):
+            nn = struct.unpack('>I', d[p:p + 4])[0]
+            out.append((p, 4, pre + 'nonce.len', nn))
+            p += 4 + nn
+        p = _walk_plain_key(d, p, basek, out, pre)
+        out.append((p, 8, pre + 'serial', None))
+        p += 8
+        out.append((p, 4, pre + 'cert_type', None))
+        p += 4
+        for name in ('keyid.len', 'principals.len'):
+            if p + 4 > len(d):
+                return
+            nn = struct.unpack('>I', d[p:p + 4])[0]
+            out.append((p, 4, pre + name, nn))
+            p += 4 + nn
+        p += 16
+        for name in ('critopts.len', 'extensions.len', 'reserved.len'):
+            if p + 4 > len(d):
+                return
+            nn = struct.unpack('>I', d[p:p + 4])[0]
+            out.append((p, 4, pre + name, nn))
+            p += 4 + nn
+        if p + 4 > len(d):
+            return
+        nn = struct.unpack('>I', d[p:p + 4])[0]
+        out.append((p, 4, pre + 'cakey.len', nn))
+        _walk_key_blob(d, p + 4, out, pre + 'CA.')
+        p += 4 + nn
+        if p + 4 <= len(d):
+            out.append((p, 4, pre + 'casig.len', struct.unpack('>I', d[p:p + 4])[0]))
+    else:
+        _walk_plain_key(d, p, kt, out, pre)
+
+
+def length_fields(tag, data):
+    """[(offset, width, name, current value)] of the length/type fields of a message the peer model sends."""
+    out = []
+    d = bytes(data)
+    if tag in ('kexinit', 'reply', 'group', 'newkeys', 'debug', 'disconnect'):
+        if len(d) < 6:
+            return out
+        out.append((0, 4, 'packet_length', struct.unpack('>I', d[:4])[0]))
+        out.append((4, 1, 'padding_length', d[4]))
+        out.append((5, 1, 'msg_type', d[5]))
+        p = 6
+        if tag == 'kexinit':
+            p += 16
+            for name in ('kex', 'key', 'enc_c2s', 'enc_s2c', 'mac_c2s', 'mac_s2c', 'comp_c2s', 'comp_s2c', 'lang_c2s', 'lang_s2c'):
+                if p + 4 > len(d):
+                    break
+                n = struct.unpack('>I', d[p:p + 4])[0]
+                out.append((p, 4, name + '.len', n))
+                p += 4 + n
+        elif tag == 'reply':
+            n = struct.unpack('>I', d[p:p + 4])[0]
+            out.append((p, 4, 'K_S.len', n))
+            _walk_key_blob(d, p + 4, out)
+            p += 4 + n
+            for name in ('f.len', 'sig.len'):
+                if p + 4 > len(d):
+                    break
+                n = struct.unpack('>I', d[p:p + 4])[0]
+                out.append((p, 4, name, n))
+                p += 4 + n
+        elif tag == 'group':
+            for name in ('p.len', 'g.len'):
+                if p + 4 > len(d):
+                    break
+                n = struct.unpack('>I', d[p:p + 4])[0]
+                out.append((p, 4, name, n))
+                p += 4 + n
+    elif tag == 'ssh1_pubkey':
+        if len(d) < 4:
+            return out
+        plen = struct.unpack('>I', d[:4])[0]
+        out.append((0, 4, 'packet_length', plen))
+        pad = 8 - plen % 8
+        out.append((4 + pad, 1, 'msg_type', d[4 + pad] if len(d) > 4 + pad else None))
+        p = 4 + pad + 1 + 8
+        out.append((p, 4, 'skey_bits', None))
+        p += 4
+        for name in ('skey_e.bits', 'skey_n.bits'):
+            if p + 2 > len(d):
+                return out
+            b = struct.unpack('>H', d[p:p + 2])[0]
+            out.append((p, 2, name, b))
+            p += 2 + (b + 7) // 8
+        out.append((p, 4, 'hkey_bits', None))
+        p += 4
+        for name in ('hkey_e.bits', 'hkey_n.bits'):
+            if p + 2 > len(d):
+                return out
+            b = struct.unpack('>H', d[p:p + 2])[0]
+            out.append((p, 2, name, b))
+            p += 2 + (b + 7) // 8
+        out.append((len(d) - 4, 4, 'crc', None))
+    return out
+
+
+def classify_handshake(stream):
+    """Independent judgement of the bytes a peer delivered on the first connection, in SSH-2 server/client role:
+    'well' (complete well-formed banner line and KEXINIT packet), 'ill', or 'unclear' (accept either treatment)."""
+    import re
+    d = bytes(stream)
+    pos = 0
+    banner = None
+    nlines = 0
+    while True:
+        i = d.find(b'\n', pos)
+        if i < 0:
+            if b'SSH-' in d[pos:]:
+                return 'unclear', 'identification string without a line feed'
+            return 'ill', 'no identification string'
+        line = d[pos:i].rstrip(b'\r')
+        pos = i + 1
+        nlines += 1
+        if line.startswith(b'SSH-'):
+            banner = line
+            break
+        if nlines > 1000:
+            return 'unclear', 'many header lines'
+    if not re.match(rb'^SSH-\d\.\d+-[\x21-\x7e]*( [\x20-\x7e]*)?$', banner):
+        return 'unclear', 'banner outside the strict grammar'
+    if not banner.startswith(b'SSH-2.0-') and not banner.startswith(b'SSH-1.99-'):
+        return 'unclear', 'not an SSH-2 banner'
+    rest = d[pos:]
+    if len(rest) < 5:
+        return 'ill', 'no packet after banner'
+    plen, pad = struct.unpack('>IB', rest[:5])
+    if plen > 262144:
+        return 'ill', 'huge packet length'
+    if len(rest) < 4 + plen:
+        return 'ill', 'truncated packet'
+    if (4 + plen) % 8 != 0 or plen < 1 + pad:
+        return 'ill', 'bad framing'
+    payload = rest[5:5 + plen - pad - 1]
+    if not payload:
+        return 'ill', 'empty payload'
+    if payload[0] in (MSG_DEBUG, MSG_IGNORE):
+        return 'unclear', 'debug/ignore before KEXINIT'
+    if payload[0] != MSG_KEXINIT:
+        return 'ill', 'first packet type %d' % payload[0]
+    if pad < 4:
+        return 'unclear', 'padding < 4'
+    try:
+        k = parse_kexinit(payload)
+    except WireError as e:
+        return 'ill', 'KEXINIT does not parse: %s' % e
+    if k['trailing']:
+        return 'unclear', 'trailing bytes in KEXINIT'
+    for f in ('kex', 'key', 'enc_c2s', 'enc_s2c', 'mac_c2s', 'mac_s2c', 'comp_c2s', 'comp_s2c'):
+        for name in k[f]:
+            if not name or any(c <= 32 or c == 127 for c in name):
+                return 'unclear', 'name with control/space/empty'
+    return 'well', ''
